@@ -27,7 +27,9 @@ invariant (no exception, zero failures) and needs no model.
 """
 
 import datetime
+import math
 import re
+from fractions import Fraction
 
 UNSPEC = 'unspecified'
 MUST_FAIL = 'must-fail'
@@ -42,7 +44,11 @@ DT_FORMAT = '%Y-%m-%d %H:%M:%S'
 
 # epsilon readings: verify_db_table's docstring says 0, the file-format
 # document says 1 %.  A min/max perturbation must be outside both.
-EPSILONS = (0.0, 0.01)
+EPSILONS = (Fraction(0), Fraction(1, 100))
+
+# SQLite INTEGER is a signed 64-bit integer; a value outside this range is
+# stored as REAL, so it is not "an integer beyond min/max" any more
+INT64_MIN, INT64_MAX = -2 ** 63, 2 ** 63 - 1
 
 
 def family_of(decl):
@@ -132,14 +138,20 @@ def sat(kind, value, family, col):
             return all(d <= bound for d in dv)
         if not _num(value) or not all(_num(v) for v in vals):
             return UNSPEC
+        if any(isinstance(x, float) and not math.isfinite(x)
+               for x in [value] + vals):
+            return UNSPEC
+        # exact rational arithmetic: bounds beyond 2**53 must not be rounded
+        bound = Fraction(value)
+        exact = [Fraction(v) for v in vals]
         res = set()
         for eps in EPSILONS:
             if kind == 'min':
-                lim = value - eps * abs(value)
-                res.add(all(v >= lim for v in vals))
+                lim = bound - eps * abs(bound)
+                res.add(all(v >= lim for v in exact))
             else:
-                lim = value + eps * abs(value)
-                res.add(all(v <= lim for v in vals))
+                lim = bound + eps * abs(bound)
+                res.add(all(v <= lim for v in exact))
         return res.pop() if len(res) == 1 else UNSPEC
     if kind in ('min_length', 'max_length'):
         if family != 'string' or not all(isinstance(v, str) for v in vals):
@@ -225,13 +237,21 @@ def candidates(kind, value, family, col, tier):
         sgn = -1 if kind == 'min' else 1
         tag = 'min-' if kind == 'min' else 'max+'
         if family == 'int':
-            out.append((tag + '1', value + sgn))
+            props = [(tag + '1', value + sgn)]
+            if abs(value) >= 50:      # also one beyond the 1 % reading
+                props.append((tag + '2%',
+                              value + sgn * (abs(value) // 50 + 1)))
             if thorough:
-                out.append((tag + '7', value + 7 * sgn))
+                props.append((tag + '7', value + 7 * sgn))
+            out.extend((pid, x) for (pid, x) in props
+                       if INT64_MIN <= x <= INT64_MAX)
         elif family == 'real':
-            out.append((tag + '1.0', value + 1.0 * sgn))
+            props = [(tag + '1.0', value + 1.0 * sgn)]
+            if abs(value) >= 50:
+                props.append((tag + '2%', value + sgn * abs(value) * 0.02))
             if thorough:
-                out.append((tag + '0.5', value + 0.5 * sgn))
+                props.append((tag + '0.5', value + 0.5 * sgn))
+            out.extend((pid, x) for (pid, x) in props if math.isfinite(x))
         elif family == 'bool':
             # the only values are false(0) < true(1)
             if kind == 'min' and value in (1, True):
